@@ -61,7 +61,7 @@ class Extractor:
             sel = sorted(x for x in out if x.startswith(pref))
             if sel:
                 return "|".join(sel)
-        fw = self.stored_into(bid, {n for n in seen if n[0] == bid})
+        fw = self.stored_into(bid, {n for n in seen if n[0] == bid}) or self.stored_into(bid, set(seen))
         if fw:
             return "|".join(sorted(fw))
         return "|".join(sorted(out)) or ("computed" if computed else "const")
@@ -85,6 +85,12 @@ class Extractor:
         """proof fields the value is moved into, taking only the nearest struct literal(s)."""
         idx = self._agg_index()
         g = self.g
+
+        def carrier(n):
+            # the Result / ControlFlow plumbing of `?` mixes the value with the error path: not a place the value lives in
+            ty = g.node_ty(n) or ""
+            return ty.startswith(("std::result::Result<", "std::ops::ControlFlow<"))
+        starts = {n for n in starts if not carrier(n)}
         level = set(starts)
         seen = set(starts)
         for _ in range(40):
@@ -99,6 +105,8 @@ class Extractor:
                     if e.kind != DATA or e.dst == OUTCOME or e.dst in seen:
                         continue
                     if not (isinstance(e.dst, tuple) and len(e.dst) == 2 and isinstance(e.dst[1], int) and e.dst[1] >= 0):
+                        continue
+                    if carrier(e.dst):
                         continue
                     if e.op in (MOVE, "hof") or (e.op == "foreign" and LG._is_result_edge(g, e) and
                                                  LG._callee_name(g, e) in R11.CARRIERS):
